@@ -20,6 +20,7 @@ struct vg_config {
         void* ctx;
         int nested;            /* 0: nested regions get a team of 1 (libgomp default); 1: they get the ICV */
         long horizon;          /* max scheduling points per execution */
+        int lazy_idle;         /* 1: idle implicit tasks of a team whose single is claimed run only when nothing else can */
 };
 
 void vg_begin(const struct vg_config* cfg);   /* start of one controlled execution (calling thread = strand 0) */
@@ -31,4 +32,6 @@ long vg_points(void);                         /* scheduling points with >= 2 ena
 long vg_steps(void);                          /* all scheduling points so far */
 int vg_max_live(void);                        /* max number of simultaneously started-and-unfinished strands */
 int vg_num_strands(void);
+int vg_explicit_outstanding(void);                /* deferred explicit tasks created and not yet finished */
+int vg_other_runnable_explicit(void);
 #endif
